@@ -254,12 +254,14 @@ func (s *subscriberServer) UpdateSubscription(
 				rp := req.Subscription.GetRetryPolicy()
 				min := rp.GetMinimumBackoff()
 				max := rp.GetMaximumBackoff()
-				if min == nil {
+				// a zero bound means "not set" (the default applies), the same way
+				// CreateSubscription treats it
+				if min.AsDuration() <= 0 {
 					subUpdate.ClearMinBackoff()
 				} else {
 					subUpdate.SetMinBackoff(sqltypes.IntervalPtr(min.AsDuration()))
 				}
-				if max == nil {
+				if max.AsDuration() <= 0 {
 					subUpdate.ClearMaxBackoff()
 				} else {
 					subUpdate.SetMaxBackoff(sqltypes.IntervalPtr(max.AsDuration()))
